@@ -84,20 +84,40 @@ func (playWorld) Gen(seed uint64, tier string) core.Scenario {
 	if tier == "thorough" && r.Chance(1, 6) {
 		maxEv = 300
 	}
+	manyTracks := false
+	if r.Chance(1, 300) {
+		// more tracks than a byte counts; the map singles out a few of them
+		nTracks = r.PickInt(257, 300, 513)
+		manyTracks = true
+	}
+	hugeCount := false
+	if r.Chance(1, 2500) {
+		hugeCount = true // more playable events than 16 bits count, long same-tick runs
+		nTracks = 2
+	}
 	if r.Chance(1, 400) {
 		maxEv = 4500 // thousands of events, many of them on one tick
 		if nTracks > 2 {
 			nTracks = 2
 		}
 	}
+	if manyTracks {
+		maxEv = 2
+	}
 	for t := 0; t < nTracks; t++ {
 		var evs []PlayEv
 		n := r.Range(0, maxEv)
+		if hugeCount {
+			n = 35000
+			pattern = 0
+		} else if maxEv == 4500 {
+			pattern = 0 // few distinct ticks: every distinct time costs a (thread-locked) sleep
+		}
 		for i := 0; i < n; i++ {
 			var d uint32
 			switch pattern {
 			case 0: // long runs on the same tick
-				if r.Chance(1, 10) {
+				if r.Chance(1, 10) && (!hugeCount || r.Chance(1, 200)) && (maxEv != 4500 || r.Chance(1, 20)) {
 					d = uint32(r.Range(1, 200))
 				}
 			case 1: // grid: deltas are multiples of a small unit (cross-track ties)
@@ -156,7 +176,7 @@ func (playWorld) Gen(seed uint64, tier string) core.Scenario {
 	nPorts := r.Range(1, 3)
 	for p := 0; p < nPorts; p++ {
 		var pc PortCfg
-		if r.Chance(1, 4) {
+		if r.Chance(1, 4) && !hugeCount {
 			for i := r.Range(1, 4); i > 0; i-- {
 				pc.LatencyUs = append(pc.LatencyUs, r.PickInt(0, 1, 50, 1000, 20000, 1000000))
 			}
@@ -178,7 +198,7 @@ func (playWorld) Gen(seed uint64, tier string) core.Scenario {
 			s.Default = r.Intn(nPorts)
 		}
 		for t := 0; t < nTracks; t++ {
-			if r.Chance(1, 2) {
+			if r.Chance(1, 2) && (!manyTracks || r.Chance(1, 40)) {
 				s.Map = append(s.Map, [2]int{t, r.Intn(nPorts)})
 			}
 		}
@@ -350,19 +370,33 @@ func (s *PlaySc) refPlay() (exp map[string]*expPlay, order [][]*expPlay, segment
 		}
 	}
 	segments = len(tcs) + 1
-	timeAt := func(tick int64) *big.Rat {
+	// cumulative time at every tempo event (exact), so that a query is a binary search
+	cum := make([]*big.Rat, len(tcs))
+	{
 		t := new(big.Rat)
-		cur := int64(500000)
-		last := int64(0)
-		for _, c := range tcs {
-			if c.tick >= tick {
-				break
-			}
-			t.Add(t, big.NewRat((c.tick-last)*cur, int64(s.Res)))
+		cur, last := int64(500000), int64(0)
+		for i, c := range tcs {
+			t = new(big.Rat).Add(t, big.NewRat((c.tick-last)*cur, int64(s.Res)))
+			cum[i] = t
 			last, cur = c.tick, c.us
 		}
-		t.Add(t, big.NewRat((tick-last)*cur, int64(s.Res)))
-		return t
+	}
+	timeAt := func(tick int64) *big.Rat {
+		// the last tempo event strictly before the tick (of several on one tick: the later one)
+		lo, hi := 0, len(tcs)
+		for lo < hi {
+			mid := (lo + hi) / 2
+			if tcs[mid].tick < tick {
+				lo = mid + 1
+			} else {
+				hi = mid
+			}
+		}
+		if lo == 0 {
+			return big.NewRat(tick*500000, int64(s.Res))
+		}
+		c := tcs[lo-1]
+		return new(big.Rat).Add(cum[lo-1], big.NewRat((tick-c.tick)*c.us, int64(s.Res)))
 	}
 	sel := map[int]bool{}
 	for _, t := range s.Select {
@@ -582,6 +616,8 @@ func (s *PlaySc) Run(env *core.Env, st *core.Stats) (vs []core.Violation) {
 		if sameTickTempo {
 			st.Probe("two-tempo-events-on-one-tick")
 		}
+		st.ProbeIf(len(s.Tracks) > 256, "more-than-256-tracks")
+		st.ProbeIf(len(exp) > 65536, "more-than-65536-playable-events")
 		for _, p := range s.Ports {
 			if len(p.LatencyUs) > 0 {
 				st.Fault("port-latency")
@@ -590,7 +626,9 @@ func (s *PlaySc) Run(env *core.Env, st *core.Stats) (vs []core.Violation) {
 				st.Fault("port-send-error")
 			}
 		}
-		st.Sample(s)
+		if s.Size() < 200 {
+			st.Sample(s)
+		}
 	}
 
 	// oracle (applied to each playback on its own)
